@@ -106,7 +106,10 @@ pub fn replay(args: &[String]) {
         for (route, map) in maps.iter().enumerate() {
             let tagged = v["tagged"].as_bool().unwrap();
             let res = guarded(|| {
-                let nfa = if tagged {
+                let nested = v["nested"].as_bool().unwrap_or(false);
+                let nfa = if nested {
+                    NFA::sequence([NFA::choice([build(&v["e"], map, route).tag_stop_state(1usize), build(&v["f"], map, route).tag_stop_state(2usize)]), build(&v["g"], map, route)])
+                } else if tagged {
                     NFA::choice([build(&v["e"], map, route).tag_stop_state(1usize), build(&v["f"], map, route).tag_stop_state(2usize)])
                 } else {
                     build(&v["e"], map, route)
@@ -115,8 +118,8 @@ pub fn replay(args: &[String]) {
                 walk(&dfa, map, &words)
             });
             let rec = match res {
-                Ok((res, stray)) => json!({"id": id, "e": v["e"], "f": v["f"], "tagged": tagged, "map": map, "route": route, "outcome": "ok", "stray": stray, "res": res}),
-                Err(m) => json!({"id": id, "e": v["e"], "f": v["f"], "tagged": tagged, "map": map, "route": route, "outcome": format!("panic: {m}"), "stray": 0, "res": []}),
+                Ok((res, stray)) => json!({"id": id, "e": v["e"], "f": v["f"], "g": v["g"], "nested": v["nested"], "tagged": tagged, "map": map, "route": route, "outcome": "ok", "stray": stray, "res": res}),
+                Err(m) => json!({"id": id, "e": v["e"], "f": v["f"], "g": v["g"], "nested": v["nested"], "tagged": tagged, "map": map, "route": route, "outcome": format!("panic: {m}"), "stray": 0, "res": []}),
             };
             out.rec(&rec);
             id += 1;
